@@ -227,6 +227,14 @@ def run(ctx):
                     if cd_.kind == "bin" and cd_.rv["op"] in ("Eq", "Ne") and any(
                             const_int(cd_.rv[x]) == 10 for x in ("a", "b") if "c" in cd_.rv[x]):
                         nl_test = True
+            if not nl_test:
+                # the newlines may be searched for instead of tested one character at a time (`skipped.rfind('\n')`,
+                # `matches('\n').count()`, `memchr(b'\n', ..)`): a call that is handed the newline as a pattern
+                for k_ in f.calls():
+                    for a_ in k_.args:
+                        c_ = a_.get("c") if isinstance(a_, dict) else None
+                        if c_ is not None and (str(c_.get("int")) == "10" and c_.get("ty") in ("char", "u8") or c_.get("str") == "\n"):
+                            nl_test = True
             ok = path in lines_w and path in cols_w and nl_test
             ctx.ob("C14.F3.offset-writer-tracks-lines", tag + path, ok,
                    "this function moves Tokenizer::current_offset over input text but %s: after it skips a newline "
